@@ -4,7 +4,8 @@ PROP = {'streams': [('c04', 4000, 400000)],
  'rule': 'histories of 1-8 operations (from_entities / add_entities / upsert_entities / remove_entities; ComputeNow, some EnforceAlreadyComputed on '
          'closed and unclosed inputs, AssumeAlreadyComputed only as last op) over a pool of 4-8 uids: random DAGs, diamonds, dangling parents, '
          'cycles of length 1-5, identical and conflicting duplicates inside one batch, alternative paths around a removed/replaced node, several '
-         'nodes of one chain replaced/removed in one batch; plus exhaustively every parent graph on <=3 uids (each uid absent or present with any '
+         'nodes of one chain replaced/removed in one batch, upsert batches naming one uid two or three times interleaved with overwrites of its '
+         'descendants (the known stale-ancestor shape, reported as known finding); plus exhaustively every parent graph on <=3 uids (each uid absent or present with any '
          'parent subset, 729 graphs) x every single add/upsert/remove (thorough: half of all 2-op histories on 3 uids and single ops on 4 uids); '
          "after each op: ok/error kind, every record's sorted parents and ancestors (model vs impl), and on the implementation alone ancestors / "
          'is_descendant_of / `e in a` via the evaluator / is_ancestor_of / `principal in X` via is_authorized on all pairs against a reachability '
@@ -22,7 +23,18 @@ PROP = {'streams': [('c04', 4000, 400000)],
               'op_preserves_partial',
               'history_inv_partial',
               'in_iff_reach',
-              'in_iff_reach_history'],
+              'in_iff_reach_history',
+              'from_preserves',
+              'accepted_acyclic',
+              'repair_correct',
+              'add_inv',
+              'upsert_multi_repeated_uid_counterexample',
+              'upsert_multi_preserves_refuted',
+              'upsert_inv',
+              'upsert_distinct_preserves',
+              'op_preserves',
+              'history_inv',
+              'in_iff_reach_history_full'],
  'assumptions': ["compute_tc's SCC internals (cyclic_tc) are modelled by their contract (saturation to a fixpoint), not mirrored",
                  'HashMap/HashSet iteration order is modelled by list order; observables are compared sorted',
                  'the wrapped TcError is private: its kind is read from the Debug form (HasCycle / MissingTcEdge)',
@@ -35,7 +47,9 @@ TEXT = ("Lean theorems over the mirror of the entity store's hierarchy maintenan
  'acyclic, parents/indirect disjoint) preserved by the operations, history induction, `in` = reflexive reachability; the model+spec define '
  'reachability: any disagreement with Entities::{from,add,upsert,remove}_entities on generated histories (random + exhaustive small scope) is a '
  'failing input.',
- 'proof over a hand-written model; remove_entities is proved at full strength (any uid list), add_entities for any batch and upsert_entities for '
- "one-entity batches on acyclic results plus soundness of rejection; cyclic_tc's SCC internals are modelled by contract; completeness of cycle "
- 'detection, multi-entity upsert batches and the compute_tc contract are stated in full (defs ...Full / named residual hypotheses of '
- 'history_inv_partial) but only checked by the correspondence; correspondence is sampled + exhaustive on <=3 uids')
+ 'proof over a hand-written model; history_inv and `in` = reflexive reachability hold WITHOUT residual hypotheses for all histories of pure '
+ 'operations whose upsert batches name each uid at most once: remove_entities (any uid list), add_entities (any batch, AddInvFull), '
+ 'upsert_entities (any batch with pairwise distinct uids), from_entities (contract `closure` standing for compute_tc: accepted => invariant), '
+ 'and completeness of the cycle detection of repair_tc (accepted => acyclic; cyclic => rejected) are proved; for upsert batches naming a uid '
+ "twice the property is refuted (Lean counterexample theorem + reproduced on the implementation, known finding); cyclic_tc's SCC internals are "
+ 'modelled by contract (ClosureCorrectFull: fuel sufficiency and cycle => `cycle` not proved); correspondence is sampled + exhaustive on <=3 uids')
